@@ -348,4 +348,128 @@ theorem inverse_lat_height_exact (lat lon h : ℝ) (hl1 : -90 ≤ lat) (hl2 : la
     field_simp
     rw [← hBdef]; ring
 
+/-- **the validity test of line 66 accepts every point of the domain** -/
+theorem ecfValid_forward (lat lon h : ℝ) (hl1 : -90 ≤ lat) (hl2 : lat ≤ 90) (hh : -((cA : ℝ) * (1 - 2 * cE2)) < h) :
+    ecfValid (geodeticToEcfLL lat lon h) = true := by
+  have hNa := primeVertical_sq lat
+  have hNpos := primeVertical_pos lat
+  have hBd := domain_B lat h hh
+  have he0 := cE2_pos
+  have hcp := cos_lat_nonneg lat hl1 hl2
+  have hcs := sin_cos_unit (lat * (Real.pi / 180))
+  have hl := sin_cos_unit (lon * (Real.pi / 180))
+  have hG := heik_G_pos cE2 cA2 (primeVertical lat) _ _ h cE2_pos cE2_lt_one hNpos hcs hNa hBd
+  have hApos : 0 < primeVertical lat + h := by nlinarith [mul_pos he0 hNpos]
+  rw [geodeticToEcfLL_eq]
+  generalize primeVertical lat = N at *
+  generalize Real.sin (lat * (Real.pi / 180)) = sp at *
+  generalize Real.cos (lat * (Real.pi / 180)) = cp at *
+  generalize Real.sin (lon * (Real.pi / 180)) = sl at *
+  generalize Real.cos (lon * (Real.pi / 180)) = cl at *
+  have hr : Real.sqrt ((N + h) * cp * cl * ((N + h) * cp * cl) + (N + h) * cp * sl * ((N + h) * cp * sl)) = (N + h) * cp := by
+    have : (N + h) * cp * cl * ((N + h) * cp * cl) + (N + h) * cp * sl * ((N + h) * cp * sl) = ((N + h) * cp) * ((N + h) * cp) := by
+      linear_combination (((N + h) * cp) * ((N + h) * cp)) * hl
+    rw [this, Real.sqrt_mul_self (mul_nonneg hApos.le hcp)]
+  simp only [ecfValid, sqrt_real, lt_real, decide_eq_true_eq]
+  rw [hr]
+  have hb : (cB : ℝ) * cB = cA2 * (1 - cE2) := by have := cB2_eq; unfold cB2 at this; exact this
+  have hb2 : (cB2 : ℝ) = cA2 * (1 - cE2) := cB2_eq
+  have hA2 := cA2_pos
+  have e1 : ((cA2 : ℝ) - cB2) * (cA2 - cB2) = cA2 * (cE2 * (cA2 - cA2 * (1 - cE2))) := by rw [hb2]; ring
+  have e2 : (cA : ℝ) * ((N + h) * cp) * (cA * ((N + h) * cp)) + cB * ((N + h - cE2 * N) * sp) * (cB * ((N + h - cE2 * N) * sp))
+      = cA2 * (((N + h) * cp) * ((N + h) * cp) + (1 - cE2) * ((N + h - cE2 * N) * sp) * ((N + h - cE2 * N) * sp)) := by
+    have : (cA : ℝ) * ((N + h) * cp) * (cA * ((N + h) * cp)) + cB * ((N + h - cE2 * N) * sp) * (cB * ((N + h - cE2 * N) * sp))
+        = (cA * cA) * (((N + h) * cp) * ((N + h) * cp)) + (cB * cB) * (((N + h - cE2 * N) * sp) * ((N + h - cE2 * N) * sp)) := by ring
+    rw [this, hb]; unfold cA2; ring
+  rw [e1, e2]
+  have := mul_pos hA2 hG
+  linarith
+
+/-- **exactness of the closed-form inverse on the domain** (off the poles): for latitude in (−90, 90), longitude in
+    (−180, 180] and height above −a(1−2e²), `ecf_to_geodetic(geodetic_to_ecf(lat, lon, h)) = (lat, lon, h)` over ℝ, validity
+    flag included. -/
+theorem inverse_exact_on_domain (lat lon h : ℝ) (hl1 : -90 < lat) (hl2 : lat < 90) (k1 : -180 < lon) (k2 : lon ≤ 180)
+    (hh : -((cA : ℝ) * (1 - 2 * cE2)) < h) :
+    ecfToGeodetic false (geodeticToEcfLL lat lon h) = some ⟨lat, lon, h⟩ := by
+  unfold ecfToGeodetic
+  rw [ecfValid_forward lat lon h hl1.le hl2.le hh, if_pos rfl]
+  simp only [Bool.false_eq_true, if_false]
+  rw [inverse_lat_height_exact lat lon h hl1.le hl2.le hh]
+  have hBd := domain_B lat h hh
+  have hApos : 0 < primeVertical lat + h := by nlinarith [mul_pos cE2_pos (primeVertical_pos lat)]
+  have hlon := inverse_lon_exact_partial lat lon h (mul_pos hApos (cos_lat_pos lat hl1 hl2)) k1 k2
+  rw [lon_component] at hlon
+  rw [hlon]
+
+/-- **… and at the poles**: every longitude gives latitude ±90, longitude 0 (`arctan2(0, 0)`), and the height -/
+theorem inverse_exact_at_poles (lon h : ℝ) (hh : -((cA : ℝ) * (1 - 2 * cE2)) < h) :
+    ecfToGeodetic false (geodeticToEcfLL 90 lon h) = some ⟨90, 0, h⟩ ∧
+    ecfToGeodetic false (geodeticToEcfLL (-90) lon h) = some ⟨-90, 0, h⟩ := by
+  constructor
+  · unfold ecfToGeodetic
+    rw [ecfValid_forward 90 lon h (by norm_num) (by norm_num) hh, if_pos rfl]
+    simp only [Bool.false_eq_true, if_false]
+    rw [inverse_lat_height_exact 90 lon h (by norm_num) (by norm_num) hh, forward_at_north_pole]
+    have : (⟨0, 0⟩ : ℂ) = 0 := rfl
+    simp [this]
+  · unfold ecfToGeodetic
+    rw [ecfValid_forward (-90) lon h (by norm_num) (by norm_num) hh, if_pos rfl]
+    simp only [Bool.false_eq_true, if_false]
+    rw [inverse_lat_height_exact (-90) lon h (by norm_num) (by norm_num) hh, forward_at_south_pole]
+    have : (⟨0, 0⟩ : ℂ) = 0 := rfl
+    simp [this]
+
+/-- the whole height range of the property lies in the domain of the exactness theorems -/
+theorem height_range_in_inverse_domain (h : ℝ) (hh : -10000 ≤ h) : -((cA : ℝ) * (1 - 2 * cE2)) < h := by
+  have hb : -((cA : ℝ) * (1 - 2 * cE2)) < -10000 := by
+    simp only [cE2, cA2, cB2, cB, cA, cF, ofNat_real]; norm_num
+  linarith
+
+/-- **the full-strength statement `C12_inverse_exact` (Props/C12.lean, section 8) is a theorem.** -/
+theorem inverse_exact : C12_inverse_exact := by
+  constructor
+  · intro lat lon h a b c d e
+    exact inverse_exact_on_domain lat lon h a b c d (height_range_in_inverse_domain h e)
+  · intro lon h e
+    exact inverse_exact_at_poles lon h (height_range_in_inverse_domain h e)
+
+/-! ### corollaries on the axes, in ECF terms -/
+
+/-- height-0 surface points -/
+theorem inverse_exact_on_surface (lat lon : ℝ) (hl1 : -90 < lat) (hl2 : lat < 90) (k1 : -180 < lon) (k2 : lon ≤ 180) :
+    ecfToGeodetic false (geodeticToEcfLL lat lon 0) = some ⟨lat, lon, 0⟩ :=
+  inverse_exact_on_domain lat lon 0 hl1 hl2 k1 k2 (height_range_in_inverse_domain 0 (by norm_num))
+
+/-- the polar axis `p = 0`: latitude ±90, longitude 0, height `|z| − b`, for every `z` with `|z| > b − a(1−2e²)`
+    (≈ 64 km from the centre) -/
+theorem inverse_on_polar_axis (z : ℝ) (hz : (cB : ℝ) - cA * (1 - 2 * cE2) < z) :
+    ecfToGeodetic false (⟨0, 0, z⟩ : V3 ℝ) = some ⟨90, 0, z - cB⟩ ∧
+    ecfToGeodetic false (⟨0, 0, -z⟩ : V3 ℝ) = some ⟨-90, 0, z - cB⟩ := by
+  have hh : -((cA : ℝ) * (1 - 2 * cE2)) < z - cB := by linarith
+  have := inverse_exact_at_poles 0 (z - cB) hh
+  rw [forward_at_north_pole, forward_at_south_pole] at this
+  have e1 : (cB : ℝ) + (z - cB) = z := by ring
+  rw [e1] at this
+  exact this
+
+/-- **a right-inverse check certifies the value**: with injectivity, any geodetic triple of the domain whose forward image is
+    `v` IS what the closed form returns for `v` -/
+theorem inverse_unique (v : V3 ℝ) (lat lon h : ℝ) (hl1 : -90 < lat) (hl2 : lat < 90) (k1 : -180 < lon) (k2 : lon ≤ 180)
+    (hh : -((cA : ℝ) * (1 - 2 * cE2)) < h) (hv : geodeticToEcfLL lat lon h = v) :
+    ecfToGeodetic false v = some ⟨lat, lon, h⟩ := by
+  rw [← hv]; exact inverse_exact_on_domain lat lon h hl1 hl2 k1 k2 hh
+
+/-- non-vacuity: a concrete off-axis point of the property's range -/
+example : ecfToGeodetic false (geodeticToEcfLL (34.5 : ℝ) (-118.25) 1234.5) = some ⟨34.5, -118.25, 1234.5⟩ :=
+  inverse_exact_on_domain _ _ _ (by norm_num) (by norm_num) (by norm_num) (by norm_num)
+    (height_range_in_inverse_domain _ (by norm_num))
+
+example : ecfToGeodetic false (geodeticToEcfLL (-89.999 : ℝ) 180 (-10000)) = some ⟨-89.999, 180, -10000⟩ :=
+  inverse_exact_on_domain _ _ _ (by norm_num) (by norm_num) (by norm_num) (by norm_num)
+    (height_range_in_inverse_domain _ (by norm_num))
+
+/-- the polar-axis hypothesis holds from 64.011 km outwards -/
+example : ((cB : ℝ) - cA * (1 - 2 * cE2) < 64011) := by
+  simp only [cE2, cA2, cB2, cB, cA, cF, ofNat_real]; norm_num
+
 end Sarpy.Props.C12
